@@ -106,6 +106,10 @@ def map_case_st(draw, thick=False):
         case["origin"]["mode"] = draw(st.sampled_from(["inside", "inside", "inside", "uniform", "centre", "face", "none"]))
         case["dz"] = {"cls": draw(st.sampled_from(["cells", "domain", "thin", "cell", "cells", "thin", "pixel"])),
                       "frac": draw(st.floats(0, 1)), "unit": draw(st.sampled_from(meshes.LEN_UNITS))}
+        if mesh["d"] == 3 and draw(st.integers(0, 4)) == 0:
+            # a left-handed axis triple (u x v = -n) with a slab several cells deep: the depth samples lie along n
+            case["orient"] = {"t": "triple", "s": draw(st.sampled_from(["zyx", "yxz", "xzy"]))}
+            case["dz"]["cls"] = draw(st.sampled_from(["cells", "cells", "domain"]))
         case["op"] = draw(st.sampled_from(["nansum", "mean", "nanmean", "sum", "min", "nanmax", "max", "nanmin"]))
         case["resz"] = draw(st.sampled_from([None, None, 1, 2, 3, 5, 8, 31, 31, 62]))     # (31, 62: dz/nz is rarely exact)
         # where the reduction is chosen: at the call, or on every Layer with another reduction named at the call
